@@ -455,11 +455,8 @@ func runC06(c *Ctx) {
 					// TCP SYN: resolve through getNextPacketIDAndSeqNum's default-mode return
 					t := lt
 					if roles.Variant == "syn" {
-						t = synDefaultID(c, d, lt)
-						if t == nil {
-							R.Fail("R06.4", key+"/id", pos, fn, "IP-ID of the SYN probe ("+lt.String()+") is not the first result of the driver's (IP-ID, sequence number) allocation method")
-							continue
-						}
+						// decided per path of SendProbe (the pair (IP-ID, sequence number) identifies a probe): checkSynProbeIDs
+						continue
 					}
 					ok, why := injective(t)
 					R.Check(ok, "R06.4", key+"/id", pos, fn, "per-probe identifier "+t.String()+" is injective in ttl", "per-probe identifier "+t.String()+" is not an injective function of ttl ("+why+"): two probes of one run can share an identifier")
@@ -477,6 +474,9 @@ func runC06(c *Ctx) {
 			}
 		}
 		R.Floor("R06.1:ip-literals:"+d.Name, ipn, 1)
+		if roles.Variant == "syn" {
+			checkSynProbeIDs(c, d, "R06.4")
+		}
 		checkSerialize(c, d, tree)
 		checkV6Identifiers(c, d)
 		checkSinkTarget(c, d, roles)
@@ -484,6 +484,112 @@ func runC06(c *Ctx) {
 	R.Floor("R06.1:builders", nbuilders, 6)
 	checkEngineSend(c)
 	checkReportedEndpoints(c)
+}
+
+// checkSynProbeIDs decides, on every inlined path of the SYN driver's SendProbe that reaches the wire write (helpers of the
+// driver's package opened, whatever shape the identifier allocation has – a method returning the pair, a value type, a probe
+// record filled step by step), what goes into the IP-ID of the IPv4 literal and the sequence number of the TCP literal:
+// the pair must tell the probes of one run apart – the IP-ID is an injective function of ttl over a run-invariant base (default
+// mode), or the sequence number is drawn from math/rand on that very path, once per probe (paris mode; the documented
+// probabilistic exception). With rule R11.2 the default-mode shape base + uint16(ttl) is demanded (the block AllocPacketID reserves).
+func checkSynProbeIDs(c *Ctx, d Driver, rule string) {
+	R := c.R
+	f := d.SendProbe
+	fn := core.FuncName(f)
+	isLayer := func(v ssa.Value, name string) bool {
+		return isNamed(v.Type(), "github.com/google/gopacket/layers", name)
+	}
+	n := 0
+	modes := map[string]bool{}
+	for _, ip := range InlinedPaths(c.P, f, inlineOpts{pkg: core.FuncPkg(f), stop: hasLoop, maxDepth: 4}) {
+		var idT, seqT *core.Term
+		wrote := false
+		for _, ev := range ip.Events {
+			if ev.Kind == "call" {
+				if call, ok := ev.Instr.(*ssa.Call); ok && isSinkWrite(call.Common()) {
+					wrote = true
+				}
+			}
+			st, ok := ev.Instr.(*ssa.Store)
+			if ev.Kind != "store" || !ok {
+				continue
+			}
+			fa, ok := st.Addr.(*ssa.FieldAddr)
+			if !ok {
+				continue
+			}
+			switch {
+			case ev.Field == "Id" && isLayer(fa.X, "IPv4"):
+				idT = ev.Val
+			case ev.Field == "Seq" && isLayer(fa.X, "TCP"):
+				seqT = ev.Val
+			}
+		}
+		if !wrote {
+			continue
+		}
+		n++
+		if idT == nil || seqT == nil {
+			R.FailPath(rule, fn+"#probe-ids", f.Pos(), fn, "a path of SendProbe reaches the wire write without an IPv4 Id / TCP Seq assignment in view: undecided", ip.Desc)
+			continue
+		}
+		// fresh per-probe randomness: the sequence number is a math/rand call evaluated on this path
+		fresh := false
+		if sq := seqT.StripConv(); sq.Op == "call" && strings.HasPrefix(sq.Name, "rand.") {
+			for _, ev := range ip.Events {
+				if v, ok := ev.Instr.(ssa.Value); ok && sq.Val != nil && v == sq.Val {
+					fresh = true
+				}
+			}
+		}
+		inj, why := injective(idT)
+		mode := "default"
+		if fresh && !inj {
+			mode = "paris"
+		}
+		modes[mode] = true
+		key := fmt.Sprintf("%s#probe-ids[%s]", fn, mode)
+		switch {
+		case rule == "R11.2":
+			if mode == "paris" {
+				continue
+			}
+			okShape := false
+			x := idT
+			if x.Op == "binop" && x.Name == "+" {
+				for k := 0; k < 2; k++ {
+					b, t := x.Args[k], x.Args[1-k]
+					if t.String() == "conv[uint16](param:ttl)" && ownOnly(b) && !mentionsTTL(b) && hasRecvLeaf(b) {
+						okShape = true
+					}
+				}
+			}
+			if okShape {
+				R.OK(rule, key, f.Pos(), fn, "default-mode IP-ID = <run's base> + uint16(ttl)")
+			} else {
+				R.FailPath(rule, key, f.Pos(), fn, "default-mode IP-ID is "+idT.String()+", not the run's reserved base plus uint16(ttl): identifiers leave the block AllocPacketID reserved for this run", ip.Desc)
+			}
+		case inj:
+			R.OK(rule, key, f.Pos(), fn, "IP-ID "+idT.String()+" is injective in ttl")
+		case fresh:
+			R.OK(rule, key, f.Pos(), fn, "IP-ID is constant and the sequence number is drawn from math/rand once per probe")
+		default:
+			R.FailPath(rule, key, f.Pos(), fn, "neither is the IP-ID ("+idT.String()+") an injective function of ttl ("+why+") nor is the sequence number ("+seqT.String()+") drawn afresh for this probe: two probes of one run carry the same (IP-ID, sequence number) pair and their replies cannot be told apart", ip.Desc)
+		}
+	}
+	R.Floor(rule+":syn-send-paths", n, 1)
+	if rule == "R06.4" {
+		R.Floor(rule+":syn-id-modes", len(modes), 2)
+	}
+}
+
+func hasRecvLeaf(t *core.Term) bool {
+	for _, l := range t.Leaves() {
+		if strings.HasPrefix(l, "recv.") {
+			return true
+		}
+	}
+	return false
 }
 
 // synDefaultID maps `getNextPacketIDAndSeqNum(recv, ttl)#0` to that function's default-mode result.
